@@ -49,7 +49,7 @@ def run(chk, tier):
     chk.rule("R-TAILZERO", "zero-tail discipline of the kinds array: the grower zero-fills new slots and registration appends infos into the slot at the count in place, "
              "so every function that lowers nr_cpukinds while keeping the array zeroes the vacated slot on every path (may-dataflow from the decrement to the exit)")
     nz = tailzero.run(chk, P, only_arrays=("cpukinds",), min_arrays=1)
-    chk.floor("R-TAILZERO", "count-lowering sites", nz, 5)
+    chk.floor("R-TAILZERO", "count-lowering sites", nz, 3)
     chk.decided += ["a kind removed by restrict leaves no stale infos/cpuset pointers for the next registration to reuse (register after restrict)",
                     "non-zero flags, NULL and empty cpusets rejected with EINVAL", "get_by_cpuset: index / EXDEV / ENOENT for each inclusion outcome",
                     "register splits on INTERSECTS/INCLUDED, merges on CONTAINS/EQUAL, skips DIFFERENT; split removes the intersection from both sides",
